@@ -141,6 +141,10 @@ func complement[T constraints.Integer](intv Interval[T], sub []Interval[T]) ([]I
 	}
 
 	intvs = append(intvs, intv)
+	if cnt == 0 {
+		// Nothing was inspected (empty sub), so there is nothing to revisit.
+		return intvs, 0
+	}
 	return intvs, cnt - 1
 }
 
